@@ -26,6 +26,10 @@ pub enum Wr {
     Accept(usize),
     PendWake,
     Err,
+    /// the writer no longer accepts bytes: `Ok(0)` for this and every later non-empty write
+    /// (what `AsyncWrite` documents for an object that cannot take more; `tokio::io::copy`
+    /// turns it into `WriteZero`)
+    ZeroForever,
 }
 #[derive(Serialize, Deserialize, Clone, Debug, PartialEq)]
 pub enum Fl {
@@ -42,6 +46,9 @@ pub struct IoLog {
     pub read_err: bool,
     pub write_err: bool,
     pub flush_err: bool,
+    /// length of `written` at the last successful flush (or shutdown): a buffering writer has
+    /// delivered only that much
+    pub flushed: usize,
     pub shutdown_err: bool,
     pub shutdown_calls: u32,
     pub shutdown_done: bool,
@@ -127,8 +134,16 @@ impl AsyncWrite for ScriptIo {
         if this.log.borrow().shutdown_done {
             this.log.borrow_mut().write_after_shutdown = true;
         }
+        if this.w.front() == Some(&Wr::ZeroForever) && !b.is_empty() {
+            let mut l = this.log.borrow_mut();
+            if !l.write_err {
+                l.events.push("write -> Ok(0) from now on".into());
+            }
+            l.write_err = true;
+            return Poll::Ready(Ok(0));
+        }
         match this.w.pop_front() {
-            None => {
+            None | Some(Wr::ZeroForever) => {
                 this.log.borrow_mut().written.extend(b);
                 Poll::Ready(Ok(b.len()))
             }
@@ -152,7 +167,11 @@ impl AsyncWrite for ScriptIo {
     fn poll_flush(self: Pin<&mut Self>, cx: &mut Context<'_>) -> Poll<io::Result<()>> {
         let this = self.get_mut();
         match this.fl.pop_front() {
-            None | Some(Fl::Ok) => Poll::Ready(Ok(())),
+            None | Some(Fl::Ok) => {
+                let mut l = this.log.borrow_mut();
+                l.flushed = l.written.len();
+                Poll::Ready(Ok(()))
+            }
             Some(Fl::PendWake) => {
                 cx.waker().wake_by_ref();
                 Poll::Pending
@@ -170,7 +189,9 @@ impl AsyncWrite for ScriptIo {
         this.log.borrow_mut().shutdown_calls += 1;
         match this.sh.pop_front() {
             None | Some(Fl::Ok) => {
-                this.log.borrow_mut().shutdown_done = true;
+                let mut l = this.log.borrow_mut();
+                l.shutdown_done = true;
+                l.flushed = l.written.len();
                 Poll::Ready(Ok(()))
             }
             Some(Fl::PendWake) => {
